@@ -60,6 +60,7 @@ def spec_init(trace):
         out["rho"] = np.array(rho, dtype=float)
         if c["psi_class"]:
             out["psi"] = c["psi"]
+        out["a_base"], out["a_max"], out["a_rate"] = c["a_base"], c["a_max"], c["dt"] / c["a_tau"]
         return out
     except Exception:  # noqa: BLE001
         return init
@@ -303,6 +304,7 @@ def mon_c14(trace):
     init = trace["init"]
     if init is None:
         return out
+    init = spec_init(trace)
     amax, abase, rate = init["a_max"], init["a_base"], init["a_rate"]
     for st in trace["steps"]:
         t = st["t"]
